@@ -1,10 +1,13 @@
 """C01: every returned solution satisfies all rules."""
 import vlib
-from props import solverstream as ss, tracecheck as tc
+from props import solverstream as ss, tracecheck as tc, enctie
 
-THEOREMS = ["C01_oracle_correct", "C01_closed_model_valid", "C01_final_state_valid", "C01_trace_sound"]
+THEOREMS = ["C01_oracle_correct", "C01_closed_model_valid", "C01_final_state_valid", "C01_trace_sound",
+            "C01_encoder_complete", "C01_encoder_model_valid", "C01_encoder_final_closed"]
 CHECKER = ("coqc Props/C01.v + Print Assumptions; harness solve_cases (debug+release, sync+yield): (a) hook logs -> extracted "
-           "check_sat_log_lenient (trace inclusion, theorem C01_trace_sound), (b) extracted o_valid on every returned solution")
+           "check_sat_log_lenient (trace inclusion, theorem C01_trace_sound), (b) extracted o_valid on every returned solution, "
+           "(c) extracted encoder model (enc_solve) vs the dumped clause database of every synchronous run: clause-for-clause "
+           "equality, trail equality, enc_final_ok")
 
 
 def run(res, tier, seed, replay):
@@ -19,6 +22,7 @@ def run(res, tier, seed, replay):
         hangs += h3
     ss.oracle_sat(recs)
     tc.annotate(recs)
+    enctie.annotate(recs)
     nsat, hist = 0, {}
     for r in recs:
         k = ss.outcome_kind(r["obs"]["outcome"])
@@ -36,11 +40,15 @@ def run(res, tier, seed, replay):
         elif "trace" in r and not (r["trace"].get("db") and r["trace"].get("run") and r["trace"].get("lenient")):
             res.tie_break(f"trace inclusion (C01_trace_sound) no longer checks for a run in {r['stream']}: checker verdict "
                           f"{r['trace']}; the returned solution itself is valid", tc.trace_replay(r))
+        elif not enctie.ok(r, ("db", "trail", "final")):
+            res.tie_break(f"encoder correspondence no longer checks for a run in {r['stream']}: the clause database / trail / "
+                          f"encoded set of the implementation differs from the encoder model (theorems C01_encoder_*): {r['enc']}; "
+                          f"the returned solution itself is valid", enctie.replay(r))
     res.rule = ("universes from seeded generators (classes small/dense/greedy/conflict, all feature masks incl. soft "
                 "requirements, hints, locks, exclusions, unions, Unknown deps), run in debug+release and sync+yielding "
                 "runtimes; every solution judged by o_valid, every hook log by the extracted trace checker; non-trivial = "
                 "distinct (case, build) with a solution of >= 2 solvables")
-    res.extra.update({"outcomes": hist, "solutions_checked": nsat, "hangs": len(hangs)}, **tc.stats(recs))
+    res.extra.update({"outcomes": hist, "solutions_checked": nsat, "hangs": len(hangs)}, **tc.stats(recs), **enctie.stats(recs))
     return res.finish(CHECKER, vlib.TRUSTED_BASE,
                       ["provider well-formedness as generated (names consistent, candidate lists duplicate-free)",
                        "panics/hangs are C04's business; here only returned solutions are judged"])
